@@ -34,6 +34,18 @@ def ob_key(o):
     return f"{o['kind']}|{o['fn']}|{o['what']}|{o['goal']}"
 
 
+def known_lookup(known, prop, k):
+    """A listed finding is identified by kind | function | site | violated clause; the term the clause is instantiated
+    with (after ` :: `) is not part of its identity, so re-writing the defective function without repairing it does not
+    turn the recorded defect into a new alarm, while any OTHER clause failing there is still reported."""
+    if (prop, k) in known:
+        return known[(prop, k)]
+    head = k.split(" :: ", 1)[0]
+    if (prop, head) in known:
+        return known[(prop, head)]
+    return None
+
+
 def short_key(k):
     return hashlib.sha256(k.encode()).hexdigest()[:16]
 
@@ -141,11 +153,12 @@ def decide(prop, tier, res, t0, extra=None):
         known_any.setdefault(k_, txt)
     for o in failed:
         k = ob_key(o)
-        if (prop, k) in known:
-            known_hit[k] = known[(prop, k)]
-        elif o.get("entry") in premise_entries and k in known_any:
+        hit = known_lookup(known, prop, k)
+        if hit is not None:
+            known_hit[k] = hit
+        elif o.get("entry") in premise_entries and (k in known_any or k.split(" :: ", 1)[0] in known_any):
             # a listed finding inside an operation this property only relies on: the same finding, not a new one
-            known_hit[k] = known_any[k]
+            known_hit[k] = known_any.get(k) or known_any[k.split(" :: ", 1)[0]]
         else:
             viol_keys.setdefault(k, o)
     for v in rule_viol:
